@@ -130,30 +130,10 @@ func runFault(c *hx.Ctx, seq *Seq, counts []int, K int) {
 			hx.Fatalf("oracle reply %q", ml)
 		}
 		enc := encD
-		if !evOK && strings.Fields(mp[1])[0] != "1" && strings.Fields(mp[1])[4] != "1" {
-			// The history reverted a block after a mid-life snapshot (snap_discipline false). Is the wrong answer
-			// the stale snapshot's doing, independent of the injected failure? Then the FAULT-FREE model run of
-			// the same operations has the same defect (a restarted process accepted the stale snapshot): that
-			// is the crash class that survives the repair, not a memory/disk disagreement caused by the fault.
-			free := strings.Split(or.Ask(fmt.Sprintf("fault %x %d ; ", W, 10000)+strings.Join(w.mops, " ; "), 1)[0], " # ")
-			if os.Getenv("C05_DEBUG") != "" {
-				fmt.Printf("debug: fault model %q\n       free model %q\n", mp, free)
-			}
-			// ... or the wrong answer first appears right after a restart (every operation since the injected failure
-			// was checked and agreed with the disk): the new process accepted the stale mid-life snapshot - because
-			// the restart was ungraceful, or because the failing write WAS the graceful restart's own snapshot. (The
-			// fault-free re-run is not conclusive when later stores were built on top of a failed one: they do not
-			// link in a run where it succeeds.) The model, given the same failure, predicts the same false negative.
-			atRestart := o.K == "G" || o.K == "U"
-			if atRestart || (len(free) == 3 && strings.Fields(free[1])[0] != "1") {
-				c.Hist["stale-midlife-snapshot-accepted-by-restarted-process"]++
-				c.Violation("crash:stale-filter-snapshot:event-false-negatives", where+fmt.Sprintf("after op %d the restarted process answers from a stale mid-life snapshot (as in the fault-free run): %s", idx, evWhat), cs, false)
-				if mp[0] != enc {
-					c.Violation("model-mismatch:fault-disk", where+fmt.Sprintf("after op %d disk differs from the model's\n   impl : %s\n   model: %s", idx, enc, mp[0]), cs, true)
-				}
-				return
-			}
-		}
+		// (Until the revert repair — RevertHead deletes the persisted snapshot inside its batch — a wrong answer of
+		// a restarted process in a history with a revert after a mid-life snapshot was attributed here to the
+		// registered stale-snapshot finding. That finding is fixed: such histories are ordinary ones now, the model
+		// of the repaired code predicts correct answers for them and a wrong one is reported below.)
 		if !evOK && !strings.Contains(enc, "snap=-") && !(kind == "store" && snapshotAfter(seq.Ops, opI)) &&
 			!strings.Contains(evWhat, "initialize the running event filter") {
 			// is it the disk (a fresh process is wrong too) and is a persisted snapshot involved? Then it is
@@ -161,7 +141,7 @@ func runFault(c *hx.Ctx, seq *Seq, counts []int, K int) {
 			if okFresh, _ := freshProbe(); !okFresh {
 				class := "crash:stale-shutdown-snapshot:event-false-negatives"
 				if strings.Fields(mp[1])[4] != "1" {
-					class = "crash:stale-filter-snapshot:event-false-negatives" // mid-life snapshot + revert: survives the repair
+					class = staleMidlifeClass // mid-life snapshot + revert: repaired by the delete in the revert batch; NOT a known finding
 				}
 				c.Violation(class, where+fmt.Sprintf("after op %d a fresh process and the restarted process both miss events: %s", idx, evWhat), cs, false)
 				return
